@@ -272,33 +272,24 @@ def partition_polynomials(ctx, prefix="C07.R"):
         except poly.Unrecognised as u:
             r4.note(key, "not decided: shape not recognised (%s)" % u, loc(g.body.blocks[bb].term.sp) if g.body.blocks[bb].term.sp else loc(g.sp))
             continue
-        # which class of block is this path about?  sign of (sbn + 1 - nb_a_large) from the dominating facts
-        cls = None
-        for fact in gfl.facts_at(bb):
-            kind, ck, fn = polarity.canon(fact)
+        # which class of block is this path about?  the dominating facts, with named intermediates substituted (`let next_sbn = sbn + 1`), are
+        # constraints on d = sign(sbn + 1 - nb_a_large): d < 0 large block, d == 0 last large block, d > 0 small block
+        D = {-1, 0, 1}
+        fs_txt = [cfgmod_show(f_) for f_ in gfl.facts_at(bb)]
+        for (a_, t_) in gfl.facts_at(bb):
+            if a_[0] not in ("lt", "le", "eq"):
+                continue
+            kind, ck, fn = polarity.canon(((a_[0], gsl.expand(a_[1]), gsl.expand(a_[2])), t_))
             if kind != "sign":
                 continue
-            names_ = [n_ for n_, _ in ck[0]]
-            if any("sbn" in n_ for n_ in names_) and any("nb_a_large" in n_ for n_ in names_):
-                coeff = {strip_sfx(n_): v for n_, v in ck[0]}
-                o = 1 if [v for n_, v in coeff.items() if "sbn" in n_][0] > 0 else -1
-                const_ = ck[1] * o         # key*o = sbn - nb_a_large + const_
-                for d in (-1, 0, 1):
-                    pass
-                truth = {d: fn(o * d) for d in (-1, 0, 1)}   # d = sign(sbn - nb_a_large + const_)
-                if const_ == 1:
-                    if truth == {-1: True, 0: False, 1: False}:
-                        cls = "large" if cls in (None, "large") else cls
-                    elif truth == {-1: False, 0: True, 1: False}:
-                        cls = "last-large"
-                    elif truth[1] and not truth[-1] and cls is None:
-                        cls = "small?"
-        # small class = neither (sbn+1 < nb_a_large) nor (sbn+1 == nb_a_large)
-        fs_txt = [cfgmod_show(f_) for f_ in gfl.facts_at(bb)]
-        if cls in (None, "small?"):
-            neg_lt = any(re.search(r"nb_a_large <= \(sbn.* \+ 1\)", t) for t in fs_txt)
-            neg_eq = any(re.search(r"^not\(\(sbn.* \+ 1\) == nb_a_large\)$", t) for t in fs_txt)
-            cls = "small" if (neg_lt and neg_eq) else None
+            coeff = {strip_sfx(n_): v for n_, v in ck[0]}
+            if set(coeff) != {"sbn", "nb_a_large"} or coeff["sbn"] != -coeff["nb_a_large"] or abs(coeff["sbn"]) != 1:
+                continue
+            o = 1 if coeff["sbn"] > 0 else -1
+            if ck[1] * o != 1:          # key*o = sbn - nb_a_large + const ; only the `sbn + 1` comparisons classify
+                continue
+            D = set(d for d in D if fn(o * d))
+        cls = {(-1,): "large", (0,): "last-large", (1,): "small"}.get(tuple(sorted(D)))
         m += 1
         if cls is None:
             r4.note(key, "not decided: block class of this path not recognised (%s)" % "; ".join(fs_txt)[:160], loc(g.sp))
